@@ -118,7 +118,12 @@ def generate(tier, rng):
         what = rng.random()
         o = rng.choice(OVFS)
         if what < 0.15:
-            yield 'BW inv - %s %s %s %s []' % (fm(sx, n, f), fm(sx, n, f), o, L([ca]))
+            # ~x of a scalar or an array; for wide words the codes also sit at the edges of the 64-bit carriers (2^63, 2^64 - 1)
+            xs = [ca] if rng.random() < 0.5 else [ca, pick(lox, hix), pick(lox, hix)]
+            if n >= 65:
+                edge = [c for c in (2 ** 63, 2 ** 64 - 1, 2 ** 63 + 5, -(2 ** 63) - 1, 2 ** 64) if lox <= c <= hix]
+                xs = [rng.choice(edge) if rng.random() < 0.6 else c for c in xs]
+            yield 'BW inv - %s %s %s %s []' % (fm(sx, n, f), fm(sx, n, f), o, L(xs))
         elif what < 0.55:
             xs = [ca] if rng.random() < 0.6 else [ca, pick(lox, hix), pick(lox, hix)]      # scalar or array x, scalar y
             yield 'BW %s ff %s %s %s %s %s' % (rng.choice(['and', 'or', 'xor']), fm(sx, n, f), fm(sy, n, rng.randint(0, n)), o, L(xs), L([cb]))
